@@ -24,9 +24,18 @@ impl ToplevelInformationDefinition {
         &mut self,
         tlds: &BTreeMap<String, ToplevelDefinition>,
     ) -> Result<(), GrammarError> {
+        // without a cycle, references nest no deeper than there are definitions
+        self.collect_supertypes_within(tlds, tlds.len())
+    }
+
+    fn collect_supertypes_within(
+        &mut self,
+        tlds: &BTreeMap<String, ToplevelDefinition>,
+        remaining_depth: usize,
+    ) -> Result<(), GrammarError> {
         match (&mut self.value, &self.class) {
             (ASN1Information::Object(ref mut o), ClassLink::ByReference(class)) => {
-                match resolve_and_link(&mut o.fields, class, tlds)? {
+                match resolve_and_link(&mut o.fields, class, tlds, remaining_depth)? {
                     Some(ToplevelInformationDefinition {
                         value: ASN1Information::Object(obj),
                         ..
@@ -64,6 +73,7 @@ fn resolve_and_link(
     fields: &mut InformationObjectFields,
     class: &ObjectClassDefn,
     tlds: &BTreeMap<String, ToplevelDefinition>,
+    remaining_depth: usize,
 ) -> Result<Option<ToplevelInformationDefinition>, GrammarError> {
     match resolve_custom_syntax(fields, class) {
         Ok(()) => link_object_fields(fields, class, tlds).map(|_| None),
@@ -76,8 +86,14 @@ fn resolve_and_link(
             if let InformationObjectFields::CustomSyntax(c) = &fields {
                 if let Some(id) = c.first().and_then(SyntaxApplication::as_str_or_none) {
                     if let Some(ToplevelDefinition::Object(tld)) = tlds.get(id) {
+                        if remaining_depth == 0 {
+                            return Err(GrammarError::new(
+                                &format!("Circular reference through object set {id}."),
+                                GrammarErrorType::LinkerError,
+                            ));
+                        }
                         let mut tld_clone = tld.clone().resolve_class_reference(tlds);
-                        tld_clone.collect_supertypes(tlds)?;
+                        tld_clone.collect_supertypes_within(tlds, remaining_depth - 1)?;
                         return Ok(Some(tld_clone));
                     }
                 }
@@ -277,6 +293,15 @@ impl ObjectSet {
         &mut self,
         tlds: &BTreeMap<String, ToplevelDefinition>,
     ) -> Result<(), GrammarError> {
+        // without a cycle, references nest no deeper than there are definitions
+        self.resolve_object_set_references_within(tlds, tlds.len())
+    }
+
+    fn resolve_object_set_references_within(
+        &mut self,
+        tlds: &BTreeMap<String, ToplevelDefinition>,
+        remaining_depth: usize,
+    ) -> Result<(), GrammarError> {
         let mut flattened_members = Vec::new();
         let mut needs_recursing = false;
         'resolving_references: for mut value in std::mem::take(&mut self.values) {
@@ -308,7 +333,13 @@ impl ObjectSet {
         }
         self.values = flattened_members;
         if needs_recursing {
-            self.resolve_object_set_references(tlds)
+            if remaining_depth == 0 {
+                return Err(GrammarError::new(
+                    "Circular reference between object sets.",
+                    GrammarErrorType::LinkerError,
+                ));
+            }
+            self.resolve_object_set_references_within(tlds, remaining_depth - 1)
         } else {
             Ok(())
         }
